@@ -392,6 +392,50 @@ def enc_privkey_field(share):
     return None
 
 
+def block_data_region(share):
+    """(start, end) of the block-data region of an SDMF / MDMF share (offset table per the specification), or None."""
+    import struct
+    if not share:
+        return None
+    if share[0] == 0:
+        fmt = ">BQ32s16sBBQQLLLLQQ"
+        if len(share) < struct.calcsize(fmt):
+            return None
+        f = struct.unpack(fmt, share[:struct.calcsize(fmt)])
+        return (f[-3], f[-2])
+    if share[0] == 1:
+        fmt = ">BQ32sBBQQQQQQQQQQ"
+        if len(share) < struct.calcsize(fmt):
+            return None
+        f = struct.unpack(fmt, share[:struct.calcsize(fmt)])
+        return (f[12], f[13])
+    return None
+
+
+def damage_block_data(g, si, rng):
+    """Flip one byte inside the block data of ONE share of the mutable object `si`, directly in the share file on disk
+    (damage that only a verifier, which reads every share, is bound to meet).  -> (server name, shnum) or None."""
+    found = g.find_shares(si)
+    if not found:
+        return None
+    vs, shnum, path = rng.choice(found)
+    res = vs.ss.slot_readv(si, [shnum], [(0, 4000000)])
+    share = res.get(shnum, [b""])[0]
+    reg = block_data_region(share)
+    if reg is None or reg[1] - reg[0] < 1:
+        return None
+    with open(path, "rb") as f:
+        raw = f.read()
+    base = raw.find(share[:96])
+    if base < 0 or raw.find(share[:96], base + 1) >= 0:
+        return None
+    pos = base + rng.randrange(reg[0], reg[1])
+    with open(path, "r+b") as f:
+        f.seek(pos)
+        f.write(bytes([raw[pos] ^ (1 << rng.randrange(8))]))
+    return (vs.name, shnum)
+
+
 def der_trim(b):
     """Cut a byte string that starts with a DER SEQUENCE (long form, 2 length bytes) to that object's length."""
     if len(b) >= 4 and b[0] == 0x30 and b[1] == 0x82:
